@@ -76,6 +76,8 @@ class C18(Check):
                 for two in (False, True):
                     out.append({"part": "redraw", "term": term_name, "prev": a_kind, "views": 2, "two": two, "full_pool": tier != "quick"})
         out.append({"part": "redraw", "term": "konsole", "prev": 4, "views": 2, "two": True, "full_pool": tier != "quick"})
+        for a_kind in (1, 2):
+            out.append({"part": "redraw", "term": "kitty", "prev": a_kind, "views": 2, "two": True, "full_pool": tier != "quick", "cleared": True})
         # kitty support forced by the user on a terminal where detection fails
         for a_kind in ((1, 2) if tier == "quick" else range(4)):
             out.append({"part": "redraw", "term": "kitty", "prev": a_kind, "views": 2, "two": True, "full_pool": tier != "quick", "forced_only": True})
@@ -347,6 +349,12 @@ class C18(Check):
         screen._ti_clear_images()
         prev_views = {(id(v[0]),) + tuple(v[1:]) for v in screen._ti_image_cviews}
         by_id = {id(c): c for c in pool}
+        if shape.get("cleared"):
+            # the application clears the screen and urwid redraws the very same (cached) canvas: the images are on the
+            # terminal again and must still be known to the screen when they move later
+            urwid.raw_display.Screen.clear = lambda self_: None
+            screen.clear()
+            screen.draw_screen((9, 9), canvA)
         out.items.clear()
         self._two = shape["two"]
         next_pool = pool if shape.get("full_pool") else [pool[0], pool[2], pool[4]]  # kitty image, iterm2 image, text
